@@ -122,7 +122,19 @@ func (g *GcsEmu) makeBucketListResults(ctx context.Context, baseUrl HttpBaseUrl,
 	// Resolve the found items.
 	var items []*storage.Object
 	for _, item := range found {
-		if obj, err := g.store.ReadMeta(baseUrl, bucket, item.filename, item.fInfo); err != nil {
+		// Read each item the way a metadata request does: under the object's lock and from the
+		// store as it is now. The file information gathered by the walk may describe a content
+		// file that an upload had written but not yet stamped and described.
+		var obj *storage.Object
+		err := g.locks.Run(ctx, lockName(bucket, item.filename), func(ctx context.Context) error {
+			var err error
+			obj, err = g.store.GetMeta(baseUrl, bucket, item.filename)
+			return err
+		})
+		if err == nil && obj == nil {
+			continue // deleted since the walk
+		}
+		if err != nil {
 			// return our partial results + the cursor so that the client can retry from this point
 			g.log(nil, "failed to resolve: %s", item.filename)
 			moreResults = true
